@@ -1524,7 +1524,7 @@ def _handle_project_stage(in_collection, unused_database, options):
             raise OperationFailure(
                 'Bad projection specification, cannot exclude fields '
                 "other than '_id' in an inclusion projection: %s" % options)
-        elif method == 'exclude' and value:
+        elif method == 'exclude' and value and field != '_id':
             raise OperationFailure(
                 'Bad projection specification, cannot include fields '
                 'or add computed fields during an exclusion projection: %s' % options)
